@@ -365,14 +365,18 @@ def read_table(path):
 
 def resample_one(exe, d, idx, r):
     os.makedirs(d, exist_ok=True)
+    xd = float(r.get("xd", XD))          # abscissa lattice of this vector (16 dyadic; 10/20 decimal)
+
+    def gx(k):
+        return repr(k / xd)              # shortest decimal text: the same text goes into the file and into --grid
     with open(os.path.join(d, "in.tab"), "w") as f:
         for k, v, fl in zip(r["k"], r["y"], r["f"]):
-            f.write("%s %s %s\n" % (fx(k), fy(v), fl))
+            f.write("%s %s %s\n" % (gx(k), fy(v), fl))
     mn, h, mx = r["grid"]
     cmd = [exe, "--in", "in.tab", "--out", "out.tab", "--derivative", "der.tab", "--type", r["type"],
-           "--grid", "%s:%s:%s" % (fx(mn), fx(h), fx(mx))]
+           "--grid", "%s:%s:%s" % (gx(mn), gx(h), gx(mx))]
     if r["fit"]:
-        cmd += ["--fitgrid", "%s:%s:%s" % tuple(fx(v) for v in r["fit"])]
+        cmd += ["--fitgrid", "%s:%s:%s" % tuple(gx(v) for v in r["fit"])]
     if r["per"]:
         cmd += ["--boundaries", "periodic"]
     comment = None
@@ -415,14 +419,15 @@ def run_resample(ctx, exe, recs):
             ctx.violation(key + ":count", "output has %d/%d rows, expected %d for --grid %s" % (
                 len(val), len(der), n, o["cmd"][o["cmd"].index("--grid") + 1]), rr)
             continue
-        expx = [k / XD for k in r["x"]]
+        xd = float(r.get("xd", XD))
+        expx = [k / xd for k in r["x"]]
         if any(not vlib.close(a[0], b, 1e-9, 1e-12) or not vlib.close(d[0], b, 1e-9, 1e-12) for a, d, b in zip(val, der, expx)):
             ctx.violation(key + ":grid", "output points %s, expected %s" % ([a[0] for a in val], expx), rr)
             continue
         if [a[2] for a in val] != r["fl"]:
-            where = "on-input-grid" if r["fam"] in ("ident",) else "transfer"
-            ctx.violation(key + ":flags:" + where, "flags %s expected %s (input x=%s flags=%s, output x=%s)" % (
-                "".join(a[2] for a in val), "".join(r["fl"]), [k / XD for k in r["k"]], "".join(r["f"]), expx), rr)
+            where = "on-input-grid" if r["fam"] in ("ident", "identdec") else "transfer"
+            ctx.violation(key + ":flags:" + where, "flags %s expected %s (input x=%s..%s flags=%s, %s)" % (
+                "".join(a[2] for a in val), "".join(r["fl"]), r["k"][0] / xd, r["k"][-1] / xd, "".join(r["f"]), " ".join(o["cmd"][1:])), rr)
         if [a[2] for a in der] != r["fl"]:
             ctx.violation(key + ":flags:derivative-file", "derivative flags %s expected %s" % (
                 "".join(a[2] for a in der), "".join(r["fl"])), rr)
@@ -434,7 +439,7 @@ def run_resample(ctx, exe, recs):
                 if not vlib.close(got[row][1], e, 2e-9, 1e-9):
                     ctx.violation("%s:%s:%s" % (key, name, _where(r["x"][row], r["k"])),
                                   "%s at x=%s is %r, expected %r (input x=%s y=%s)" % (
-                                      name, expx[row], got[row][1], e, [k / XD for k in r["k"]], [v / YD for v in r["y"]]), rr)
+                                      name, expx[row], got[row][1], e, [k / xd for k in r["k"]], [v / YD for v in r["y"]]), rr)
                     break
         maxy = max([1] + [abs(v) for v in r["y"]])
         for rel in r["rel"]:
